@@ -81,6 +81,11 @@ class BuiltinMixin(object):
             raise OutsideSubset("old() outside a contract")
         return self.spec(e.args[0], self._with_binders(st.old, st))
 
+    def sf_at_old(self, e, st):
+        """at_old(obj, 'field'): the field of the object denoted *now* by obj, read in the pre-state heap"""
+        obj = self.ev1(e.args[0], st)
+        return self.heap_get(st.old, obj, e.args[1].value)
+
     def sf_lold(self, e, st):
         if not st.lold:
             raise OutsideSubset("lold() outside a loop")
